@@ -135,6 +135,15 @@ def run(tier, seed, t0):
             for c, inv in (("rxfull", "Detect"), ("txfull", "SendIdle"), ("onlyhb", "AnyTraffic"))]
     if thorough:
         mcf.append(ex.submit(vlib.run_mc, "MC_Heartbeat", "MC_Heartbeat_big.cfg", workers=6, xmx="6g", timeout=1500))
+    # the same properties without the bounds: inductive invariant of Heartbeat.tla for EVERY h, Unit, Slack, Early,
+    # Fudge < Unit and unbounded time (Apalache, SMT integers); the three faults must break the induction.
+    # One after the other in one task, so that the timing-sensitive sessions are not disturbed.
+    def inductive():
+        return [vlib.run_apalache("HeartbeatInd", "ConstInit", "Init0", "Ind", 0),
+                vlib.run_apalache("HeartbeatInd", "ConstInit", "IndInit", "Ind", 1)] + \
+               [vlib.run_apalache("HeartbeatInd", c, "IndInit", "Ind", 1, expect_violation=True)
+                for c in ("ConstInitBugRx", "ConstInitBugTx", "ConstInitBugOnlyHb")]
+    indf = ex.submit(inductive)
     try:
         tdir = vlib.outdir(PROP, "traces", clean=True)
         sessions = plan(tier, seed)
@@ -163,7 +172,7 @@ def run(tier, seed, t0):
             run_sessions(redo, tdir, par=4)
             c2, bad2 = vlib.validate_traces("HeartbeatTrace", "HeartbeatTrace.cfg", again, timeout=600, xmx="1g")
             bad = [b for b in bad if b["file"] not in again] + bad2
-        mc = [f.result() for f in mcf]
+        mc = [f.result() for f in mcf] + indf.result()
     finally:
         ex.shutdown(wait=True)
     v = vlib.Verdict(PROP)
